@@ -46,15 +46,14 @@ def answer (line : String) : String :=
   let known := strs.filterMap CN.ofStr?
   let unknown := strs.filter (fun s => (CN.ofStr? s).isNone)
   let n : NS := { NS.ofList known with other := !unknown.isEmpty }
-  let pr : CN → Nat := fun k => known.idxOf k
   match ctor with
   | "obj" => showE [] (objB n)
-  | "Vector2D" => showE [] (classB 2 false n pr)
-  | "Vector3D" => showE [] (classB 3 false n pr)
-  | "Vector4D" => showE [] (classB 4 false n pr)
-  | "Momentum2D" => showE [] (classB 2 true n pr)
-  | "Momentum3D" => showE [] (classB 3 true n pr)
-  | "Momentum4D" => showE [] (classB 4 true n pr)
+  | "Vector2D" => showE [] (classB 2 false n)
+  | "Vector3D" => showE [] (classB 3 false n)
+  | "Vector4D" => showE [] (classB 4 false n)
+  | "Momentum2D" => showE [] (classB 2 true n)
+  | "Momentum3D" => showE [] (classB 3 true n)
+  | "Momentum4D" => showE [] (classB 4 true n)
   | "array" =>
     (match npB n with
      | .ok r => showRes r ((npExtra n r).map CN.str ++ unknown)
